@@ -513,6 +513,9 @@ func (x *Exec) forStmt(s *ast.ForStmt, st *State, cs []*ctl, label string) []*St
 		st = r[0]
 	}
 	spec, ord := x.loopSpec(s)
+	if x.coarse && (spec == nil || (len(spec.Invariants) == 0 && spec.Unroll == 0)) {
+		spec = trivialLoopSpec(spec)
+	}
 	if spec == nil || (len(spec.Invariants) == 0 && spec.Unroll == 0) {
 		x.fail(s.Pos(), "loop %d has no invariant or unroll directive", ord)
 		return nil
@@ -792,6 +795,9 @@ func (x *Exec) rangeStmt(s *ast.RangeStmt, st *State, cs []*ctl, label string) [
 			}
 		}
 		return x.mergeMany(append(cur, exits...))
+	}
+	if x.coarse && (spec == nil || len(spec.Invariants) == 0) {
+		spec = trivialLoopSpec(spec)
 	}
 	if spec == nil || len(spec.Invariants) == 0 {
 		x.fail(s.Pos(), "loop %d has no invariant", ord)
